@@ -3,9 +3,21 @@ package rand
 
 import "github.com/anthdm/hollywood/zzrt"
 
+var fixed = -1
+
+// ZZFix makes Intn return min(v, n-1) until ZZFix(-1): harness set-up code uses it where the drawn value is
+// irrelevant to the property (e.g. the id of the engine's own event stream actor).
+func ZZFix(v int) { fixed = v }
+
 func Intn(n int) int {
 	if n <= 0 {
 		panic("invalid argument to Intn")
+	}
+	if fixed >= 0 {
+		if fixed < n {
+			return fixed
+		}
+		return n - 1
 	}
 	return zzrt.NondetIntn("rand.Intn", n)
 }
